@@ -28,6 +28,7 @@ inventory code asks the inventories store — never the revision store — wheth
 Third round: delta-basis-is-delta-source — in RevisionInstaller._install_inventory_records the inventory the delta is made against is looked
 up under the very expression passed as basis to add_inventory_by_delta; preview-verified-when-present — MergeDirective2._maybe_verify
 answers "inapplicable" only under `self.patch is None`.
+Fourth round: retry-collects-all-parents — every loop over `.parent_ids` in BaseMergeDirective.install_revisions iterates the attribute itself (no slice).
 Does not decide: testament equality of the installed revisions; detection of a tampered patch (hash checks are value
 computations).
 """
@@ -273,8 +274,18 @@ def run(ctx):
     ctx.require(bool(inapp), f"{wmv}: `return 'inapplicable'` not found")
     g_present = gmv.assume({"self.patch is not None": True, "self.patch is None": False})
     ctx.check("preview-verified-when-present", wmv, not (set(inapp) & g_present.reachable_from_entry()) and any(call_attr(c) == "_verify_patch" for c in calls_in(fmv)), "'inapplicable' is answered only when self.patch is None; any patch that is present, the empty one included, goes through _verify_patch", message="_maybe_verify answers 'inapplicable' for a patch that is present but empty (a truthiness test instead of `is not None`): a directive whose preview was blanked out is no longer reported as tampered ('failed'), `brz merge` gives no warning while the bundle still carries the change")
+    # ---- fourth round: the dependency retry of install_revisions looks at every parent of every bundled revision ---------
+    fir = repo.func(MD, "BaseMergeDirective.install_revisions")
+    ploops = [l_ for l_ in ast.walk(fir) if isinstance(l_, (ast.For, ast.comprehension)) and "parent_ids" in norm(l_.iter)]
+    ctx.require(bool(ploops), f"{MD}:BaseMergeDirective.install_revisions: the loop over a bundled revision's parent_ids was not found")
+    for l_ in ploops:
+        it_ = l_.iter
+        whole_p = isinstance(it_, ast.Attribute) and it_.attr == "parent_ids"
+        ctx.check("retry-collects-all-parents", f"{MD}:BaseMergeDirective.install_revisions", whole_p, "missing dependencies are collected from all parent_ids of each bundled revision (a merge's right-hand parent may lie outside the bundle too)", construct=norm(it_), message=f"install_revisions collects the bundle's missing dependencies from `{norm(it_)}` instead of all parents: a bundled merge revision whose right-hand parent is outside the bundle and absent from the receiver is never fetched from the submit branch, the second install raises RevisionNotPresent although the submit branch has it")
+
 
 MUTANTS = [
+    Mutant("dependency retry looks at left-hand parents only", MD, "                        for parent_id in revision.parent_ids:\n", "                        for parent_id in revision.parent_ids[:1]:\n", expect="retry-collects-all-parents"),
     Mutant("empty preview patch skips verification", MD, "        if self.patch is not None:\n            if self._verify_patch(repository):", "        if self.patch:\n            if self._verify_patch(repository):", expect="preview-verified-when-present"),
     Mutant("delta made against any cached parent", V4, "                    parent_inv = inventory_cache.get(parent_ids[0], None)\n", "                    parent_inv = inventory_cache.get(parent_ids[-1], None)\n", expect="delta-basis-is-delta-source"),
     Mutant("0.9 bundle without a recorded hash is accepted", "breezy/bzr/bundle/bundle_data.py", "        if sha1 != rev_info.sha1:\n            raise TestamentMismatch(rev.revision_id, rev_info.sha1, sha1)\n", "        if rev_info.sha1 is None:\n            pass\n        elif sha1 != rev_info.sha1:\n            raise TestamentMismatch(rev.revision_id, rev_info.sha1, sha1)\n", expect="testament-always-compared"),
